@@ -1518,6 +1518,228 @@ fn lifecycle_race(ctx: &mut Ctx) {
     ctx.report.case("lifecycle-race", true);
 }
 
+// ------------------------------------------------------------------------------------------
+// forced producer schedules (DESIGN H3): two producer threads, one call each, every order of
+// {stamp1, publish1, stamp2, publish2}, through `tantivy::verif::set_pause_hook`
+
+/// the pairs of calls (the first one stamps first); ids 1, 2 are committed, 3 is pending
+fn forced_pairs() -> Vec<(HOp, HOp)> {
+    let (x, y, z) = (10u64, 11u64, 12u64);
+    vec![
+        (HOp::Batch(vec![BItem::Add(x), BItem::Del(Q::Id(x)), BItem::Add(y)]), HOp::Add(z)),
+        (HOp::Add(z), HOp::Batch(vec![BItem::Add(x), BItem::Del(Q::Id(x)), BItem::Add(y)])),
+        (HOp::Add(x), HOp::DelTerm(Q::Id(x))),
+        (HOp::DelTerm(Q::Id(x)), HOp::Add(x)),
+        (HOp::Batch(vec![BItem::Add(x), BItem::Add(y)]), HOp::DelTerm(Q::Id(x))),
+        (HOp::DelTerm(Q::Id(1)), HOp::DelTerm(Q::Id(3))),
+        (HOp::Batch(vec![BItem::Del(Q::Id(3)), BItem::Add(x)]), HOp::Add(y)),
+        (HOp::Add(x), HOp::Add(y)),
+        (HOp::Batch(vec![BItem::Add(x), BItem::Del(Q::Id(y)), BItem::Add(z)]), HOp::Batch(vec![BItem::Add(y), BItem::Del(Q::Id(x))])),
+        (HOp::DelTerm(Q::Id(3)), HOp::Batch(vec![BItem::Add(x), BItem::Del(Q::Id(1))])),
+        (HOp::DelQuery(Q::Range(0, 100)), HOp::Add(x)),
+        (HOp::Batch(vec![BItem::Add(x), BItem::Del(Q::Id(x)), BItem::Add(x + 50)]), HOp::Batch(vec![BItem::Add(y), BItem::Del(Q::Id(y)), BItem::Add(y + 50)])),
+    ]
+}
+
+fn forced_tok(op: &HOp) -> Tok {
+    match op {
+        HOp::Add(i) => Tok::Add(*i),
+        HOp::DelTerm(q) | HOp::DelQuery(q) => Tok::Del(q.clone()),
+        HOp::Batch(items) => Tok::Batch(items.clone()),
+        _ => Tok::Prepare,
+    }
+}
+
+/// schedule 0: s1 p1 s2 p2 (sequential); 1: s1 s2 p1 p2; 2: s1 s2 p2 p1
+fn forced_schedule(ctx: &mut Ctx, pair_idx: usize, schedule: u64, cut: u32) {
+    use std::sync::{Arc, Condvar, Mutex};
+    let pairs = forced_pairs();
+    let (op1, op2) = pairs[pair_idx % pairs.len()].clone();
+    #[derive(Default)]
+    struct Gate {
+        stamped: [bool; 2],
+        go: [bool; 2],
+    }
+    let gate: Arc<(Mutex<Gate>, Condvar)> = Arc::new((Mutex::new(Gate::default()), Condvar::new()));
+    let wait_for = |gate: &Arc<(Mutex<Gate>, Condvar)>, f: &dyn Fn(&Gate) -> bool| -> bool {
+        let (m, cv) = &**gate;
+        let g = m.lock().unwrap();
+        let (g, res) = cv.wait_timeout_while(g, std::time::Duration::from_secs(5), |g| !f(g)).unwrap();
+        drop(g);
+        !res.timed_out()
+    };
+    {
+        let gate = gate.clone();
+        tantivy::verif::set_pause_hook(Some(Arc::new(move |_name: &'static str| {
+            let k = match std::thread::current().name() {
+                Some("c02-prod-0") => 0,
+                Some("c02-prod-1") => 1,
+                _ => return,
+            };
+            let (m, cv) = &*gate;
+            let mut g = m.lock().unwrap();
+            g.stamped[k] = true;
+            cv.notify_all();
+            let _ = cv.wait_timeout_while(g, std::time::Duration::from_secs(5), |g| !g.go[k]).unwrap();
+        })));
+    }
+    let res = catch_unwind(AssertUnwindSafe(|| -> Option<(Vec<u64>, [Option<u64>; 2])> {
+        let mut sb = Schema::builder();
+        let id = sb.add_u64_field("id", FAST | INDEXED | STORED);
+        let tag = sb.add_text_field("tag", STRING | STORED);
+        let body = sb.add_text_field("body", TEXT | STORED);
+        let grp = sb.add_u64_field("grp", FAST | INDEXED | STORED);
+        let f = Fields { id, tag, body, grp };
+        let index = Index::create(RamDirectory::create(), sb.build(), Default::default()).ok()?;
+        tantivy::verif::set_segment_cut_docs(cut);
+        let mut w: IndexWriter = index.writer_with_num_threads(1, 15_000_000).ok()?;
+        w.set_merge_policy(Box::new(NoMergePolicy));
+        w.add_document(make_doc(&f, 1)).ok()?;
+        w.add_document(make_doc(&f, 2)).ok()?;
+        w.commit().ok()?;
+        w.add_document(make_doc(&f, 3)).ok()?;
+        let call = |w: &IndexWriter, op: &HOp| -> Option<u64> {
+            match op {
+                HOp::Add(i) => w.add_document(make_doc(&f, *i)).ok(),
+                HOp::DelTerm(q) => Some(w.delete_term(q_term(q, &f))),
+                HOp::DelQuery(q) => w.delete_query(q_build(q, &f)).ok(),
+                HOp::Batch(items) => w
+                    .run(items.iter().map(|it| match it {
+                        BItem::Add(i) => UserOperation::Add(make_doc(&f, *i)),
+                        BItem::Del(q) => UserOperation::Delete(q_term(q, &f)),
+                    }).collect::<Vec<_>>())
+                    .ok(),
+                _ => None,
+            }
+        };
+        let mut rets: [Option<u64>; 2] = [None, None];
+        let ok = {
+            let w = &w;
+            let (op1, op2) = (&op1, &op2);
+            let call = &call;
+            let gate = &gate;
+            std::thread::scope(|s| -> bool {
+                let spawn = |k: usize, op: &'_ HOp| {
+                    let op = op.clone();
+                    std::thread::Builder::new().name(format!("c02-prod-{k}")).spawn_scoped(s, move || call(w, &op)).unwrap()
+                };
+                let release = |k: usize| {
+                    let (m, cv) = &**gate;
+                    m.lock().unwrap().go[k] = true;
+                    cv.notify_all();
+                };
+                let h0 = spawn(0, op1);
+                let mut ok = wait_for(gate, &|g| g.stamped[0]);
+                if schedule == 0 {
+                    release(0);
+                    rets[0] = h0.join().ok().flatten();
+                    let h1 = spawn(1, op2);
+                    ok &= wait_for(gate, &|g| g.stamped[1]);
+                    release(1);
+                    rets[1] = h1.join().ok().flatten();
+                } else {
+                    let h1 = spawn(1, op2);
+                    ok &= wait_for(gate, &|g| g.stamped[1]);
+                    if schedule == 1 {
+                        release(0);
+                        rets[0] = h0.join().ok().flatten();
+                        release(1);
+                        rets[1] = h1.join().ok().flatten();
+                    } else {
+                        release(1);
+                        rets[1] = h1.join().ok().flatten();
+                        release(0);
+                        rets[0] = h0.join().ok().flatten();
+                    }
+                }
+                ok
+            })
+        };
+        if !ok {
+            return None;
+        }
+        w.commit().ok()?;
+        let reader: tantivy::IndexReader = index.reader_builder().reload_policy(ReloadPolicy::Manual).try_into().ok()?;
+        reader.reload().ok()?;
+        let searcher = reader.searcher();
+        let mut ids = vec![];
+        for sr in searcher.segment_readers() {
+            let col = sr.fast_fields().u64("id").ok()?;
+            for doc in sr.doc_ids_alive() {
+                ids.push(col.first(doc)?);
+            }
+        }
+        ids.sort();
+        Some((ids, rets))
+    }));
+    tantivy::verif::set_pause_hook(None);
+    tantivy::verif::set_segment_cut_docs(0);
+    let case = json!({"kind": "forced", "pair": pair_idx, "schedule": schedule, "cut": cut});
+    let sname = ["s1 p1 s2 p2", "s1 s2 p1 p2", "s1 s2 p2 p1"][schedule as usize % 3];
+    ctx.report.count(&format!("forced-schedule:{sname}"));
+    let canon = format!("forced|{pair_idx}|{schedule}|{cut}");
+    ctx.report.case(&canon, true);
+    let (real, rets) = match res {
+        Ok(Some(x)) => x,
+        Ok(None) => {
+            ctx.report.count("forced-schedule:setup-failed");
+            return;
+        }
+        Err(_) => {
+            ctx.report.violation("oracle", "C02:panic", format!("panic in forced schedule {sname} of {:?} | {:?}", op1, op2), case);
+            return;
+        }
+    };
+    // the stamp order is the forced one
+    if let (Some(a), Some(b)) = (rets[0], rets[1]) {
+        if a >= b {
+            ctx.report.violation("oracle", "C02:opstamp-not-increasing", format!("forced schedule {sname}: the call that stamped first returned {a}, the other {b}"), case.clone());
+        }
+    }
+    // admissible outcomes: the sequential replay of the two calls in call order, and - when the
+    // calls overlap - in the other order (Lean specification)
+    let all_ids: Vec<u64> = vec![1, 2, 3, 10, 11, 12, 60, 61];
+    let prior = vec![(Tok::Add(1), None), (Tok::Add(2), None), (Tok::Commit(None), None), (Tok::Add(3), None)];
+    let mut admissible: Vec<Vec<u64>> = vec![];
+    let orders: Vec<[&HOp; 2]> = if schedule == 0 { vec![[&op1, &op2]] } else { vec![[&op1, &op2], [&op2, &op1]] };
+    for o in orders {
+        let mut toks = prior.clone();
+        toks.push((forced_tok(o[0]), None));
+        toks.push((forced_tok(o[1]), None));
+        toks.push((Tok::Commit(None), None));
+        let resp = ask(ctx, &format!("C02 replay {}", render(&toks, &all_ids, false)));
+        if let Some(c) = field(&resp, "committed").and_then(|s| crate::model::parse_nat_list(&s)) {
+            admissible.push(c);
+        }
+    }
+    if admissible.contains(&real) {
+        ctx.report.count("forced-schedule:linearizable");
+        return;
+    }
+    // F10: the first call is a batch that adds and then deletes a document; the other call
+    // stamped later, published an add first; exactly those documents are the extra ones
+    let own_deleted: Vec<u64> = match &op1 {
+        HOp::Batch(items) => items.iter().enumerate().filter_map(|(k, it)| match it {
+            BItem::Add(i) if items[k + 1..].iter().any(|d| matches!(d, BItem::Del(q) if q_matches(q, *i))) => Some(*i),
+            _ => None,
+        }).collect(),
+        _ => vec![],
+    };
+    let other_adds = matches!(&op2, HOp::Add(_)) || matches!(&op2, HOp::Batch(items) if items.iter().any(|i| matches!(i, BItem::Add(_))));
+    let f10 = schedule == 2 && !own_deleted.is_empty() && other_adds && admissible.iter().any(|a| {
+        let mut with = a.clone();
+        with.extend(own_deleted.iter().cloned());
+        with.sort();
+        with == real
+    });
+    if f10 {
+        ctx.report.count("forced-schedule:F10");
+        ctx.report.violation("oracle", K_F10, format!("forced schedule {sname} (segment cut every {cut} docs): call 1 = {:?} drew its stamps and queued its delete, call 2 = {:?} stamped later and was sent first, then call 1 was sent: documents {:?}, which call 1 itself deletes, are published: {:?}; admissible {:?}", op1, op2, own_deleted, real, admissible), case);
+    } else {
+        ctx.report.violation("oracle", "C02:forced-schedule-not-linearizable", format!("forced schedule {sname} (cut {cut}) of {:?} | {:?}: published {:?}, admissible {:?}", op1, op2, real, admissible), case);
+    }
+}
+
 /// F10 searched for directly: producer A issues batches `[add x, delete x, add y]`, producer B
 /// single adds, one indexing worker, every batch its own segment (so every batch starts with a
 /// `skip_to`). Whatever the interleaving, no `x` may be published.
@@ -1736,6 +1958,10 @@ pub fn run(ctx: &mut Ctx) {
             lifecycle_race(ctx);
             return;
         }
+        if case["kind"] == "forced" {
+            forced_schedule(ctx, case["pair"].as_u64().unwrap_or(0) as usize, case["schedule"].as_u64().unwrap_or(2), case["cut"].as_u64().unwrap_or(0) as u32);
+            return;
+        }
         if case["kind"] == "producer-race" {
             producer_race(ctx, case["rounds"].as_u64().unwrap_or(400));
             return;
@@ -1760,8 +1986,19 @@ pub fn run(ctx: &mut Ctx) {
     for _ in 0..ctx.budget(2, 10) {
         lifecycle_race(ctx);
     }
-    // producer threads racing between stamp and send (F10)
-    producer_race(ctx, ctx.budget(120, 2000));
+    // forced producer schedules: every pair of calls, every order of {stamp, publish} x 2
+    for pair in 0..forced_pairs().len() {
+        for schedule in 0..3 {
+            for cut in [0u32, 1] {
+                forced_schedule(ctx, pair, schedule, cut);
+            }
+        }
+    }
+    // producer threads racing between stamp and send (F10), free-running (thorough tier only:
+    // the forced schedules above give the deterministic witness)
+    if ctx.thorough() {
+        producer_race(ctx, 2000);
+    }
     // real memory-budget cuts in the middle of run() batches
     let memcut = ctx.budget(7, 70);
     for k in 0..memcut {
